@@ -1,13 +1,5 @@
-// Shared by all targets: bytes -> proptest pass-through RNG -> the same strategies the
+// Shared by all targets: bytes -> hand-written decoder (lsmv::bytecase) -> the same case types the
 // property-based checks use -> the same interpreter and auditors.
-use proptest::strategy::{Strategy, ValueTree};
-use proptest::test_runner::{Config, RngAlgorithm, TestRng, TestRunner};
-
-pub fn decode<S: Strategy>(strat: &S, data: &[u8]) -> Option<S::Value> {
-    let rng = TestRng::from_seed(RngAlgorithm::PassThrough, data);
-    let mut runner = TestRunner::new_with_rng(Config { failure_persistence: None, ..Config::default() }, rng);
-    strat.new_tree(&mut runner).ok().map(|t| t.current())
-}
 
 pub fn init() {
     static ONCE: std::sync::Once = std::sync::Once::new();
